@@ -39,6 +39,7 @@ WHY = {
     "pg-drap-realigned-stack": "the mcount stub cannot find the return slot of a DRAP-realigned frame without unwind information",
     "script-record-float": "libmcount deliberately does not touch FP registers at record time; documented placeholder",
     "patchable-pre-entry-stripped": "without symbols nothing tells where the entry of a function with pre-entry NOPs is",
+    "watch-var-once-per-process": "the watch item of -W var is one per process by design (a shared previous value); per-thread state needs a data-structure change",
     "watch-first-event-1ns": "the +1/-1 ns stamping scheme of watch events is a design decision",
 }
 
